@@ -205,7 +205,8 @@ func c05Root(b []byte, root string, needJoin bool) []byte {
 		}
 		b = append(b, c)
 	}
-	if verifrt.Bool2() {
+	// no, one (the optional one) or two trailing dots
+	for d := verifrt.Choice(3); d > 0; d-- {
 		b = append(b, '.')
 	}
 
